@@ -28,7 +28,7 @@ def functors(s, d):
 def otsu(s):
     S = CT[s]
     return [
-        Sym(H, r"histogram\[(max == min \? 0 : \(\(src_it\[x\] - min\) \* 255\) / \(max - min\))\]\+\+;", "otsu_index_%s" % s,
+        Sym(H, r"histogram\[(max == min \?[^;\]]*)\]\+\+;", "otsu_index_%s" % s,
             [("px", S), ("min", S), ("max", S)], ret="int", expr=True, subst=[(r"src_it\[x\]", "px")],
             doc="otsu_impl: histogram index of a pixel from the scanned min/max, source channel %s" % S),
     ]
@@ -36,7 +36,7 @@ def otsu(s):
 SYMS = []
 for s, d in PAIRS: SYMS += functors(s, d)
 for s in ("i8", "u16", "i16"): SYMS += otsu(s)
-SYMS.append(Sym(H, r"threshold_binary\(src_view, dst_view, (\(threshold \* \(max - min\) / 255\) \+ min), direction\);", "otsu_rescale_u16",
+SYMS.append(Sym(H, r"threshold_binary\(src_view, dst_view, (\(threshold \*[^;,]*), direction\);", "otsu_rescale_u16",
                 [("threshold", "std::size_t"), ("min", "uint16_t"), ("max", "uint16_t")], ret="std::size_t", expr=True,
                 doc="otsu_impl: final threshold for unsigned 16-bit sources, before the conversion to the result channel type"))
 NAMESPACE = "GilVerif.Gen.C16"
